@@ -92,7 +92,7 @@ func (c *Ctx) check16m(code []g.Instruction, start int, M uint64, legacy bool, n
 func (c *Ctx) RunC16(tier string) {
 	thorough := tier == "thorough"
 	rep := c.Rep
-	small := []uint64{3, 4, 5, 6, 7, 8, 9}
+	small := []uint64{3, 4, 5, 6, 7, 8, 9, 10, 11, 12, 13, 14, 15, 16}
 	if !thorough {
 		small = []uint64{4, 7, 8}
 	}
